@@ -37,7 +37,9 @@ var builtinUFs = map[string]builtinUF{
 		[]string{"gs.len", "gs.at"}},
 	"gs.ofbytes": {[]string{sAI, sInt, sInt}, sStr, []string{
 		"(forall ((a (Array Int Int)) (o Int) (n Int)) (! (=> (<= 0 n) (= (gs.len (gs.ofbytes a o n)) n)) :pattern ((gs.ofbytes a o n))))",
-		"(forall ((a (Array Int Int)) (o Int) (n Int) (k Int)) (! (=> (and (<= 0 k) (< k n)) (= (gs.at (gs.ofbytes a o n) k) (select a (+ o k)))) :pattern ((gs.at (gs.ofbytes a o n) k))))",
+		// conditional on the element being a byte: gs.ofbytes is total over all integer arrays, and an
+		// unconditional equation would contradict the range axiom of gs.at (found by the axiom cover check)
+		"(forall ((a (Array Int Int)) (o Int) (n Int) (k Int)) (! (=> (and (<= 0 k) (< k n) (<= 0 (select a (+ o k))) (<= (select a (+ o k)) 255)) (= (gs.at (gs.ofbytes a o n) k) (select a (+ o k)))) :pattern ((gs.at (gs.ofbytes a o n) k))))",
 		"(forall ((a (Array Int Int)) (o Int) (n Int) (b (Array Int Int)) (p Int)) (! (=> (forall ((k Int)) (=> (and (<= 0 k) (< k n)) (= (select a (+ o k)) (select b (+ p k))))) (= (gs.ofbytes a o n) (gs.ofbytes b p n))) :pattern ((gs.ofbytes a o n) (gs.ofbytes b p n))))"},
 		[]string{"gs.len", "gs.at"}},
 	"gs.ofrune":  {[]string{sInt}, sStr, []string{"(forall ((r Int)) (! (and (<= 1 (gs.len (gs.ofrune r))) (<= (gs.len (gs.ofrune r)) 4)) :pattern ((gs.ofrune r))))", "(and (= (gs.len (gs.ofrune 0)) 1) (= (gs.at (gs.ofrune 0) 0) 0))"}, []string{"gs.len", "gs.at"}},
@@ -89,6 +91,22 @@ func (e *Engine) smtText(o *Obligation, extra []string, getValues []string) stri
 	facts := o.PC.factsSince(nil)
 	goal := o.Goal
 	toks := tokensOf(append(append([]string{goal}, facts...), extra...)...)
+	if o.AllAxioms {
+		// consistency check of the background theory: every axiom family this run used
+		for n := range e.usedUF {
+			toks[n] = true
+		}
+		for n := range builtinUFs {
+			if strings.HasPrefix(n, "gs.") || strings.HasPrefix(n, "sq.") {
+				toks[n] = true
+			}
+		}
+		for _, n := range e.db.UFOrder {
+			toks[n] = true
+			toks[n+".arr"] = true
+			toks[n+".len"] = true
+		}
+	}
 	// axioms from spec files: include when one of their symbols is mentioned (closure)
 	var axTexts []string
 	axUsed := map[int]bool{}
@@ -407,7 +425,11 @@ func (e *Engine) solveAll(workdir string, timeout time.Duration, par int) {
 		go func(o *Obligation) {
 			defer wg.Done()
 			defer func() { <-sem }()
-			r := race(o.File, timeout)
+			to := timeout
+			if o.Cover && to > 6*time.Second {
+				to = 6 * time.Second // vacuity guards only look for a quick refutation
+			}
+			r := race(o.File, to)
 			o.Status, o.Solver, o.Secs, o.Raw = r.status, r.solver, r.secs, r.out
 			if r.status == "sat" {
 				o.Model = parseValues(r.out)
